@@ -34,7 +34,7 @@ DECLINED = [
     "zip vs outer product by index *name* (dict(zip(external_indices, key)) is right by an ordering argument about names: see C08.6)",
     "list-vs-ndarray input handling; behaviour of user functions",
 ]
-KIND_MODULES = ("pipefunc.map._run", "pipefunc.map._shapes", "pipefunc.map._run_info", "pipefunc.map._mapspec")
+KIND_MODULES = ("pipefunc.map._run", "pipefunc.map._shapes", "pipefunc.map._run_info", "pipefunc.map._mapspec", "pipefunc.map._storage_array._base")
 
 
 def check(ctx: Ctx) -> None:  # noqa: C901, PLR0915
@@ -176,6 +176,7 @@ MUTANTS = [
     Mutant("mask-fixed-axes-no-external-key", R, "    external_key = external_shape_from_mask(key, shape_mask)  # type: ignore[arg-type]\n", "    external_key = key\n", ("C01.1-rank-domain",)),
     Mutant("result-array-index-without-guard", R, "        if not all(mask):\n            _output = np.asarray(_output)  # In case _output is a list\n            _set_output(result_array, _output, index, shape, mask)\n        else:\n            result_array[index] = _output\n", "        result_array[index] = _output\n", ("C01.1-rank-domain",)),
     Mutant("init-arrays-full-shape", "pipefunc/map/_run_info.py", "    return [storage_class(path, external_shape, internal_shape, mask) for path in paths]\n", "    return [storage_class(path, shape, internal_shape, mask) for path in paths]\n", ("C01.1-rank-domain",)),
+    Mutant("normalize-key-original-F01", B, "    key_mask = (True,) * expected_rank if for_dump else shape_mask\n", "    key_mask = shape_mask\n", ("C01.1-rank-domain",), why="original F01"),
     Mutant("foreign-key-original-F02", M, "                        if output_name in non_root_inputs:\n                            non_root_inputs[output_name][j] = new_axis\n", "                        non_root_inputs[output_name][j] = new_axis\n", ("C01.2-foreign-key",), why="original F02"),
     Mutant("select-does-not-load", R, "    _load_arrays(selected)\n    return selected\n", "    return selected\n", ("C01.3-whole-arrays",)),
     Mutant("single-does-not-load", R, "    # Otherwise, run the function\n    _load_arrays(kwargs)\n", "    # Otherwise, run the function\n", ("C01.3-whole-arrays",)),
